@@ -12,6 +12,7 @@ import (
 
 	"bfeverif/harness/internal/vh"
 	h2 "github.com/bfenetworks/bfe/bfe_http2"
+	"github.com/bfenetworks/bfe/bfe_http2/hpack"
 )
 
 // ---------- rendering of ReadFrame results ----------
@@ -45,6 +46,14 @@ func errStr(err error) string {
 		return "E:ueof"
 	case h2.ErrFrameTooLarge:
 		return "E:big"
+	}
+	if m := err.Error(); strings.HasPrefix(m, "streamID[") {
+		if strings.Contains(m, "maxHeaderUriSize[") {
+			return "E:uri"
+		}
+		if strings.Contains(m, "maxHeaderListSize[") {
+			return "E:hls"
+		}
 	}
 	return "E:other"
 }
@@ -89,6 +98,16 @@ func frameStr(f h2.Frame) (s string, stop bool) {
 		return fmt.Sprintf("W:%s:%d", fhStr(f.FrameHeader), f.Increment), false
 	case *h2.ContinuationFrame:
 		return "C:" + fhStr(f.FrameHeader) + ":" + vh.Hex(f.HeaderBlockFragment()), false
+	case *h2.MetaHeadersFrame:
+		var parts []string
+		for _, hf := range f.Fields {
+			parts = append(parts, vh.Hex([]byte(hf.Name))+"="+vh.Hex([]byte(hf.Value)))
+		}
+		l := "-"
+		if len(parts) > 0 {
+			l = strings.Join(parts, "&")
+		}
+		return "M:" + fhStr(f.FrameHeader) + ":" + prioStr(f.Priority) + ":T" + b01(f.Truncated) + ":" + l, false
 	case *h2.UnknownFrame:
 		return fmt.Sprintf("X%d:%s:%s", uint8(f.Header().Type), fhStr(f.FrameHeader), vh.Hex(f.Payload())), false
 	}
@@ -100,8 +119,19 @@ func readAll(max uint32, buf []byte) string { return readLoop(max, bytes.NewRead
 // readLoop calls ReadFrame until a terminal error (cont=false, as the serve loop does) or until an
 // i/o error (cont=true: ReadFrame is called again after every other error).
 func readLoop(max uint32, r io.Reader, n int, cont bool) string {
+	return readLoopM(max, r, n, cont, 0, 0)
+}
+
+// readLoopM: with maxList > 0 the Framer gets ReadMetaHeaders (a fresh hpack decoder, table size 4096),
+// MaxHeaderListSize = maxList and MaxHeaderUriSize = maxUri, as the server configures it.
+func readLoopM(max uint32, r io.Reader, n int, cont bool, maxList, maxUri uint32) string {
 	fr := h2.NewFramer(nil, r)
 	fr.SetMaxReadFrameSize(max)
+	if maxList > 0 {
+		fr.ReadMetaHeaders = hpack.NewDecoder(4096, nil)
+		fr.MaxHeaderListSize = maxList
+		fr.MaxHeaderUriSize = maxUri
+	}
 	var out []string
 	for i := 0; i <= n+1; i++ {
 		f, err := fr.ReadFrame()
@@ -469,6 +499,15 @@ func exec(op string) string {
 		}
 		chunks := cutInto(sizes, append([]byte(nil), buf...))
 		return readLoop(uint32(max), &segReader{chunks: chunks, eofWithData: ewd}, len(buf), false)
+	case f[0] == "rm" && len(f) == 5:
+		ml, o1 := u(f[1], 31)
+		mu, o2 := u(f[2], 31)
+		max, o3 := u(f[3], 32)
+		buf, o4 := vh.UnHex(f[4])
+		if !(o1 && o2 && o3 && o4) || ml == 0 || mu == 0 {
+			return "bad-op"
+		}
+		return readLoopM(uint32(max), bytes.NewReader(buf), len(buf), false, uint32(ml), uint32(mu))
 	case f[0] == "rc" && len(f) == 3:
 		max, o1 := u(f[1], 32)
 		buf, o2 := vh.UnHex(f[2])
@@ -717,6 +756,157 @@ func pickMax(r *vh.Rand, buf []byte) uint32 {
 	return 1<<24 - 1
 }
 
+// ---- header blocks in the HPACK sublanguage the Lean driver decodes exactly ----
+
+type hfield struct{ name, value string }
+
+func litStr(s string) []byte { return append([]byte{byte(len(s))}, s...) }
+
+func genField(r *vh.Rand, pseudoOK bool) (hfield, []byte) {
+	names := []string{"a", "x-b", "accept", "cookie", "user-agent", "te", "x-long-header-name-0123456789"}
+	switch k := r.Intn(20); {
+	case k < 5 && pseudoOK: // indexed static pseudo
+		idx := []int{2, 3, 4, 5, 6, 7, 1}[r.Intn(7)]
+		return hfield{}, []byte{byte(0x80 | idx)}
+	case k < 7: // indexed static regular (or :status)
+		idx := r.Range(8, 61)
+		if r.Chance(1, 12) {
+			idx = []int{0, 62, 100}[r.Intn(3)] // invalid index
+		}
+		return hfield{}, []byte{byte(0x80 | idx)}
+	case k < 9 && pseudoOK: // literal pseudo with literal name
+		n := []string{":method", ":path", ":scheme", ":authority", ":status", ":bogus"}[r.Intn(6)]
+		v := []string{"GET", "/", "https", "h", "200", "/" + strings.Repeat("p", r.Range(0, 40))}[r.Intn(6)]
+		b := append([]byte{[]byte{0x00, 0x10}[r.Intn(2)]}, litStr(n)...)
+		return hfield{n, v}, append(b, litStr(v)...)
+	case k < 11: // literal with static name index 1..14
+		idx := r.Range(1, 14)
+		v := []string{"", "v", "/" + strings.Repeat("q", r.Range(0, 30)), "GET"}[r.Intn(4)]
+		return hfield{}, append([]byte{byte(r.Intn(2)*16 + idx)}, litStr(v)...)
+	case k == 11: // dynamic table size update
+		return hfield{}, []byte{byte(0x20 + r.Intn(31))}
+	case k == 12: // invalid name / value
+		n := []string{"Upper", "", "sp ace", "a\x7f"}[r.Intn(4)]
+		v := []string{"ok", "ctl\x01", "tab\tok", "del\x7f"}[r.Intn(4)]
+		n = strings.NewReplacer("\\x7f", "\x7f").Replace(n)
+		b := append([]byte{0x00}, litStr(n)...)
+		return hfield{n, v}, append(b, litStr(v)...)
+	}
+	n := names[r.Intn(len(names))]
+	v := strings.Repeat("v", []int{0, 1, 3, 10, 30, 60, 126}[r.Intn(7)])
+	b := append([]byte{[]byte{0x00, 0x10}[r.Intn(2)]}, litStr(n)...)
+	return hfield{n, v}, append(b, litStr(v)...)
+}
+
+// genMeta: 1..2 header blocks (HEADERS + 0..3 CONTINUATION, fragments cut anywhere, also empty),
+// possibly truncated / with garbage / disturbed by other frames, read with small limits.
+func genMeta(r *vh.Rand) string {
+	var specs []string
+	total := 0
+	nblocks := r.Range(1, 2)
+	for b := 0; b < nblocks; b++ {
+		var block []byte
+		if r.Chance(2, 3) {
+			// a well-formed request header block: pseudo headers first (indexed or literal), then regular fields
+			add := func(enc []byte) { block = append(block, enc...); total += len(enc) + 32 }
+			lit := func(n, v string) []byte { return append(append([]byte{[]byte{0x00, 0x10}[r.Intn(2)]}, litStr(n)...), litStr(v)...) }
+			add([][]byte{{0x82}, {0x83}, lit(":method", "PUT")}[r.Intn(3)])
+			add([][]byte{{0x86}, {0x87}}[r.Intn(2)])
+			add([][]byte{{0x84}, {0x85}, lit(":path", "/"+strings.Repeat("p", r.Range(0, 45))), append([]byte{0x04}, litStr("/x")...)}[r.Intn(4)])
+			if r.Bool() {
+				add([][]byte{{0x81}, lit(":authority", "example.org"), append([]byte{0x01}, litStr("h")...)}[r.Intn(3)])
+			}
+			for k := r.Intn(5); k > 0; k-- {
+				switch r.Intn(4) {
+				case 0:
+					add([]byte{byte(0x80 | r.Range(15, 61))})
+				case 1:
+					add([]byte{byte(0x20 + r.Intn(31))})
+					total -= 33
+				default:
+					add(lit([]string{"a", "x-b", "accept", "cookie", "user-agent"}[r.Intn(5)], strings.Repeat("v", []int{0, 1, 3, 10, 30, 60, 126}[r.Intn(7)])))
+				}
+			}
+			if r.Chance(1, 10) { // one defect
+				_, enc := genField(r, true)
+				add(enc)
+			}
+		} else {
+			nf := r.Range(0, 7)
+			pseudoFirst := !r.Chance(1, 8)
+			for i := 0; i < nf; i++ {
+				_, enc := genField(r, pseudoFirst && i < 4 || !pseudoFirst && r.Chance(1, 3))
+				block = append(block, enc...)
+				total += len(enc) + 32
+			}
+		}
+		switch r.Intn(12) {
+		case 0:
+			if len(block) > 0 {
+				block = block[:len(block)-1] // truncated headers
+			}
+		case 1:
+			block = append(block, r.Bytes(r.Range(1, 4))...) // garbage (Huffman bits, indexing, ...)
+		}
+		sid := uint32(2*b + 1)
+		if r.Chance(1, 15) {
+			sid = 0
+		}
+		ncont := r.Intn(4)
+		cuts := make([]int, ncont)
+		for i := range cuts {
+			cuts[i] = r.Intn(len(block) + 1)
+		}
+		for i := 1; i < len(cuts); i++ { // sort
+			for j := i; j > 0 && cuts[j] < cuts[j-1]; j-- {
+				cuts[j], cuts[j-1] = cuts[j-1], cuts[j]
+			}
+		}
+		prev := 0
+		frag := func(i int) []byte {
+			end := len(block)
+			if i < ncont {
+				end = cuts[i]
+			}
+			f := block[prev:end]
+			prev = end
+			return f
+		}
+		dep, ex, w := genPrio(r)
+		first := frag(0)
+		if len(first) == 0 && r.Chance(3, 4) && len(block) > 0 && ncont > 0 {
+			first = block[:1] // an empty first fragment is rejected by the frame parser: keep it rare
+			prev = 1
+			for i := range cuts {
+				if cuts[i] < 1 {
+					cuts[i] = 1
+				}
+			}
+		}
+		specs = append(specs, fmt.Sprintf("H,%d,%s,%s,%d,%d,%s,%d,%s", sid, b01(r.Bool()), b01(ncont == 0), genPadLen(r)%13, dep, b01(ex), w, vh.Hex(first)))
+		for i := 1; i <= ncont; i++ {
+			if r.Chance(1, 14) { // disturbance inside the block
+				specs = append(specs, []string{fmt.Sprintf("W,%d,0", r.Range(1, 5)), "I,0,0102030405060708", fmt.Sprintf("C,%d,0,aa", sid+2), "X,11,0,1,00"}[r.Intn(4)])
+			}
+			specs = append(specs, fmt.Sprintf("C,%d,%s,%s", sid, b01(i == ncont), vh.Hex(frag(i))))
+		}
+		if r.Chance(1, 6) {
+			specs = append(specs, genW(r, []int{0, 2, 3, 4, 7, 9}[r.Intn(6)], uint32(r.Range(1, 5))))
+		}
+	}
+	_, buf, _ := writeAll(true, specs)
+	maxList := []int{1 << 20, 1 << 20, 1 << 20, 4096, total, total - 1, total + 1, total - 10, total / 2, 64, 33, 200}[r.Intn(12)]
+	if maxList < 1 {
+		maxList = 1
+	}
+	maxUri := []int{8192, 8192, 8192, 1, 10, 20, 41}[r.Intn(7)]
+	max := uint32(1<<24 - 1)
+	if r.Chance(1, 8) {
+		max = pickMax(r, buf)
+	}
+	return fmt.Sprintf("rm %d %d %d %s", maxList, maxUri, max, vh.Hex(buf))
+}
+
 func genCuts(r *vh.Rand) string {
 	var c string
 	switch r.Intn(6) {
@@ -740,6 +930,9 @@ func genCuts(r *vh.Rand) string {
 }
 
 func gen(r *vh.Rand) string {
+	if r.Chance(1, 5) {
+		return genMeta(r)
+	}
 	specs := genSpecs(r)
 	allow := r.Chance(1, 3)
 	if r.Chance(1, 12) {
